@@ -258,6 +258,11 @@ func (v *VecDense) CopyVec(a Vector) int {
 		blas64.Copy(src, dst)
 		return n
 	}
+	if aU, _ := untransposeExtract(a); aU != v {
+		if rv, ok := aU.(RawVectorer); ok {
+			v.checkOverlap(rv.RawVector())
+		}
+	}
 	for i := 0; i < n; i++ {
 		v.setVec(i, a.AtVec(i))
 	}
@@ -316,6 +321,11 @@ func (v *VecDense) ScaleVec(alpha float64, a Vector) {
 		return
 	}
 
+	if aU, _ := untransposeExtract(a); aU != v {
+		if rv, ok := aU.(RawVectorer); ok {
+			v.checkOverlap(rv.RawVector())
+		}
+	}
 	for i := 0; i < n; i++ {
 		v.setVec(i, alpha*a.AtVec(i))
 	}
